@@ -269,6 +269,14 @@ V("C17", "duplicate-test-by-get-is-not-none", "silent", "", "duplicate name dete
   ("src/pyhf/patchset.py", "            if patch.name in self._patches_by_key:\n                raise exceptions.InvalidPatchSet(\n                    f'Multiple patches were defined by name for {patch}.'\n                )\n", "            previous = self._patches_by_key.get(patch.name)\n            if previous is not None:\n                raise exceptions.InvalidPatchSet(\n                    f'Multiple patches were defined by name for {patch} (also {previous}).'\n                )\n"))
 V("C17", "duplicate-test-by-truthiness", "fire", "C17.R6", "duplicate name detected through the truth value of the earlier patch: an empty patch (legal) is falsy",
   ("src/pyhf/patchset.py", "            if patch.name in self._patches_by_key:\n                raise exceptions.InvalidPatchSet(\n                    f'Multiple patches were defined by name for {patch}.'\n                )\n", "            previous = self._patches_by_key.get(patch.name)\n            if previous:\n                raise exceptions.InvalidPatchSet(\n                    f'Multiple patches were defined by name for {patch} (also {previous}).'\n                )\n"))
+V("C04", "class-cache-first-instance-width", "fire", "C04.R9", "numpy normal_logpdf constants cached on the class in the first instance's float type",
+  ("src/pyhf/tensor/numpy_backend.py", '    #: The array content type for numpy\n    array_subtype = np.number\n', '    #: The array content type for numpy\n    array_subtype = np.number\n\n    _normal_constants: dict = {}\n'), ("src/pyhf/tensor/numpy_backend.py", '        root2 = np.sqrt(2)\n        root2pi = np.sqrt(2 * np.pi)\n', '        constants = self._normal_constants\n        if not constants:\n            float_type = self.dtypemap["float"]\n            constants["root2"] = float_type(np.sqrt(2))\n            constants["root2pi"] = float_type(np.sqrt(2 * np.pi))\n        root2 = constants["root2"]\n        root2pi = constants["root2pi"]\n'))
+V("C04", "class-cache-per-precision", "silent", "", "numpy normal_logpdf constants cached on the class per precision",
+  ("src/pyhf/tensor/numpy_backend.py", '    #: The array content type for numpy\n    array_subtype = np.number\n', '    #: The array content type for numpy\n    array_subtype = np.number\n\n    _normal_constants: dict = {}\n'), ("src/pyhf/tensor/numpy_backend.py", '        root2 = np.sqrt(2)\n        root2pi = np.sqrt(2 * np.pi)\n', '        constants = self._normal_constants\n        if self.precision not in constants:\n            float_type = self.dtypemap["float"]\n            constants[self.precision] = (float_type(np.sqrt(2)), float_type(np.sqrt(2 * np.pi)))\n        root2, root2pi = constants[self.precision]\n'))
+V("C04", "torch-root2-import-time-tensor", "fire", "C04.R9", "sqrt(2) of torch normal_cdf becomes a module-level tensor created at import (float32 default)",
+  ("src/pyhf/tensor/pytorch_backend.py", '        return 0.5 * torch.erfc(-((x - mu) * sigma.reciprocal() / math.sqrt(2)))', '        return 0.5 * torch.erfc(-((x - mu) * sigma.reciprocal() / _ROOT2))'), ("src/pyhf/tensor/pytorch_backend.py", 'log = logging.getLogger(__name__)\n', 'log = logging.getLogger(__name__)\n_ROOT2 = torch.tensor(math.sqrt(2.0))\n'))
+V("C04", "torch-root2-module-float", "silent", "", "sqrt(2) of torch normal_cdf becomes a module-level python float",
+  ("src/pyhf/tensor/pytorch_backend.py", '        return 0.5 * torch.erfc(-((x - mu) * sigma.reciprocal() / math.sqrt(2)))', '        return 0.5 * torch.erfc(-((x - mu) * sigma.reciprocal() / _ROOT2))'), ("src/pyhf/tensor/pytorch_backend.py", 'log = logging.getLogger(__name__)\n', 'log = logging.getLogger(__name__)\n_ROOT2 = math.sqrt(2.0)\n'))
 
 # ------------------------------------------------------------------ C08
 INF = "src/pyhf/infer/__init__.py"
